@@ -537,7 +537,7 @@ pub fn run_c12(ctx: &Ctx, rep: &mut Report) {
             }
         }
     });
-    let n = ctx.budget(900, 25_000, 2, 200);
+    let n = ctx.budget(3500, 40_000, 2, 200);
     ctx.cases(rep, "play", n, |gid, rng, rep| {
         // SAN-convergence scenario is over-weighted
         let start = if rng.below(4) == 0 {
